@@ -247,6 +247,12 @@ fn corpus() -> Vec<Vec<u8>> {
 
 fn run(prop: Prop, ctx: &Ctx, rep: &mut Report) {
     let pname = if prop == Prop::C02 { "C02" } else { "C03" };
+    if ctx.config == "dev0" {
+        // unoptimised build: only the families whose point is the *size* of the input
+        size_families(prop, ctx, rep);
+        rep.assume("configuration dev0 (opt-level 0, all checks on) runs the size families only: stack depth and buffer use depend on the optimisation level");
+        return;
+    }
     // ---------------- G1: all short strings after each prefix
     let pre = prefixes();
     let full_len3: Vec<&str> = vec!["raw", "v1-con-get-tkl0"];
@@ -488,50 +494,7 @@ fn run(prop: Prop, ctx: &Ctx, rep: &mut Report) {
             },
         );
     }
-    // ---------------- G5: well-formed datagrams with n option instances whose value sizes add up to every total 0..=300
-    {
-        let ns: [usize; 7] = [1, 2, 3, 5, 6, 10, 16];
-        let radices = [ns.len() as u64, 301, 2, 2];
-        let n = product(&radices);
-        ctx.family(
-            rep,
-            "G5-value-size-totals",
-            "well-formed datagrams: n in {1,2,3,5,6,10,16} option instances (same number / consecutive numbers) whose value lengths add up to every total 0..=300, with and without a payload",
-            n,
-            true,
-            |i, rep| {
-                let d = decode(i, &radices);
-                let mut m = crate::c01::many_instances(ns[d[0] as usize], d[1] as usize, d[2] == 1);
-                if d[3] == 1 {
-                    m.payload = vec![0xFF, 0x01];
-                }
-                let b = codec::enc(&m).unwrap();
-                judge(prop, "G5-value-size-totals", i, n, &b, ctx, rep);
-            },
-        );
-    }
-    // ---------------- G6: very many options in one datagram
-    {
-        let counts: [usize; 8] = [50, 500, 3000, 4000, 10_000, 20_000, 30_000, 60_000];
-        let n = counts.len() as u64 * 2;
-        ctx.family(
-            rep,
-            "G6-very-many-options",
-            "well-formed datagrams with 50 .. 60000 one-byte options (all the same number / every option number + 1)",
-            n,
-            true,
-            |i, rep| {
-                let k = counts[(i / 2) as usize];
-                let step: u8 = if i % 2 == 0 { 0x01 } else { 0x11 }; // delta 0 or 1, length 1
-                let mut b = vec![0x40u8, 0x01, 0x77, 0x88];
-                for j in 0..k {
-                    b.push(if j == 0 { 0xB1 } else { step });
-                    b.push(b'a' + (j % 26) as u8);
-                }
-                judge(prop, "G6-very-many-options", i, n, &b, ctx, rep);
-            },
-        );
-    }
+    size_families(prop, ctx, rep);
     // ---------------- G3: every prefix and every single-byte substitution of a corpus of well-formed messages
     {
         let corp = corpus();
@@ -577,6 +540,53 @@ fn run(prop: Prop, ctx: &Ctx, rep: &mut Report) {
     if prop == Prop::C02 {
         rep.assume("injectivity (no two different accepted datagrams parse to equal messages) follows from re-encode identity and is not searched separately");
         rep.assume("random long strings named in the quantifier are replaced by the exhaustive generators G1-G3; no sampling takes part in the verdict");
+    }
+}
+
+fn size_families(prop: Prop, ctx: &Ctx, rep: &mut Report) {
+    // ---------------- G5: well-formed datagrams with n option instances whose value sizes add up to every total 0..=300
+    {
+        let ns: [usize; 7] = [1, 2, 3, 5, 6, 10, 16];
+        let radices = [ns.len() as u64, 301, 2, 2];
+        let n = product(&radices);
+        ctx.family(
+            rep,
+            "G5-value-size-totals",
+            "well-formed datagrams: n in {1,2,3,5,6,10,16} option instances (same number / consecutive numbers) whose value lengths add up to every total 0..=300, with and without a payload",
+            n,
+            true,
+            |i, rep| {
+                let d = decode(i, &radices);
+                let mut m = crate::c01::many_instances(ns[d[0] as usize], d[1] as usize, d[2] == 1);
+                if d[3] == 1 {
+                    m.payload = vec![0xFF, 0x01];
+                }
+                let b = codec::enc(&m).unwrap();
+                judge(prop, "G5-value-size-totals", i, n, &b, ctx, rep);
+            },
+        );
+    }
+    // ---------------- G6: very many options in one datagram
+    {
+        let counts: [usize; 8] = [50, 500, 3000, 4000, 10_000, 20_000, 30_000, 60_000];
+        let n = counts.len() as u64 * 2;
+        ctx.family(
+            rep,
+            "G6-very-many-options",
+            "well-formed datagrams with 50 .. 60000 one-byte options (all the same number / every option number + 1)",
+            n,
+            true,
+            |i, rep| {
+                let k = counts[(i / 2) as usize];
+                let step: u8 = if i % 2 == 0 { 0x01 } else { 0x11 }; // delta 0 or 1, length 1
+                let mut b = vec![0x40u8, 0x01, 0x77, 0x88];
+                for j in 0..k {
+                    b.push(if j == 0 { 0xB1 } else { step });
+                    b.push(b'a' + (j % 26) as u8);
+                }
+                judge(prop, "G6-very-many-options", i, n, &b, ctx, rep);
+            },
+        );
     }
 }
 
